@@ -70,3 +70,17 @@ Require RV.Gen.Sites RV.Model.SiteMap RV.Proofs.SitesFacts.
 Theorem C04_literals_reviewed : RV.Model.SiteMap.literals_ok RV.Model.SiteMap.files_C04.
 Proof. apply RV.Proofs.SitesFacts.literals_okb_sound. vm_compute. reflexivity. Qed.
 Print Assumptions C04_literals_reviewed.
+
+(* ---- root_from_paths AS TRANSLATED FROM THE SOURCE on this run (Gen/Code.v, by /verif/rs2coq from
+   src/merkle.rs: the leaf hash, the path-length assertion, the loop over path elements as a fold
+   with the running hash and the shifting index, left/right by the index's low bit, the truncation
+   to the node length, finalize_output) computes what the model computes, for every index, leaf and
+   path: a value (the same one) or a panic. C04_root_from_paths and C04_binding therefore speak
+   about the verifier as it is written today. *)
+Require Import RV.Model.Message RV.Model.GenSupport RV.Gen.Code RV.Proofs.CodeMerkle.
+
+Theorem C04_translated_root_from_paths_is_model :
+  forall H, HashLen H -> forall v index data paths,
+    ok_opt (gen_root_from_paths H v index data paths) = ok_opt (root_from_paths H v index data paths).
+Proof. exact gen_root_from_paths_model. Qed.
+Print Assumptions C04_translated_root_from_paths_is_model.
